@@ -5,6 +5,9 @@ import (
 	"crypto/sha256"
 	"encoding/hex"
 	"encoding/json"
+	"sync"
+
+	"github.com/vektah/gqlparser/v2/gqlerror"
 
 	"github.com/99designs/gqlgen/graphql"
 	"github.com/99designs/gqlgen/zzsym"
@@ -174,4 +177,67 @@ func Harness_C15_history() {
 		}
 	}
 	zzsym.Reach("apq.history")
+}
+
+// c15Locked is a goroutine-safe APQ store (like the LRU the default server uses).
+type c15Locked struct {
+	mu sync.Mutex
+	m  map[string]string
+}
+
+func (c *c15Locked) Get(ctx context.Context, k string) (string, bool) {
+	c.mu.Lock()
+	defer c.mu.Unlock()
+	v, ok := c.m[k]
+	return v, ok
+}
+func (c *c15Locked) Add(ctx context.Context, k string, v string) {
+	c.mu.Lock()
+	c.m[k] = v
+	c.mu.Unlock()
+}
+
+// Harness_C15_concurrent: two clients send text + hash at the same time
+// through one extension value: whatever the interleaving, each request is
+// accepted exactly when its own text hashes to its own hash, and the store
+// never binds a hash to another text; the extension's shared state is free
+// of data races.
+func Harness_C15_concurrent() {
+	texts := []string{"{a}", "{b}"}
+	store := &c15Locked{m: map[string]string{}}
+	a := AutomaticPersistedQuery{Cache: store}
+	type req struct {
+		text, hash string
+		err        *gqlerror.Error
+	}
+	mk := func(name string) *req {
+		t := texts[zzsym.Choice(name+".text", 2)]
+		h := c15Hash(t)
+		if zzsym.Choice(name+".hash", 2) == 1 {
+			h = c15Hash(texts[0])
+			if t == texts[0] {
+				h = c15Hash(texts[1])
+			}
+		}
+		return &req{text: t, hash: h}
+	}
+	r1, r2 := mk("r1"), mk("r2")
+	var wg sync.WaitGroup
+	run := func(r *req) {
+		defer wg.Done()
+		ctx := graphql.WithOperationContext(context.Background(), &graphql.OperationContext{})
+		p := &graphql.RawParams{Query: r.text, Extensions: map[string]any{"persistedQuery": map[string]any{"version": 1, "sha256Hash": r.hash}}}
+		r.err = a.MutateOperationParameters(ctx, p)
+	}
+	wg.Add(2)
+	go run(r1)
+	go run(r2)
+	wg.Wait()
+	for _, r := range []*req{r1, r2} {
+		zzsym.Assert((r.err == nil) == (c15Hash(r.text) == r.hash), "a request is accepted exactly when its text hashes to its hash, whatever runs beside it")
+	}
+	for k, v := range store.m {
+		zzsym.Assert(c15Hash(v) == k, "the store maps a hash only to the text with that SHA-256")
+	}
+	zzsym.Reach("apq.concurrent")
 }
